@@ -34,6 +34,11 @@ def model_controls(ctx):
 
 
 def _text(rng, n):
+    # a length given as a pair (n, lead) asks for `lead` blanks in front (they occupy columns:
+    # a row of 1 blank + 32 letters is 33 characters long)
+    if isinstance(n, (tuple, list)):
+        n, lead = n
+        return [32] * min(lead, n - 1) + _text(rng, n - min(lead, n - 1))
     out = []
     while len(out) < n:
         w = rng.randrange(1, 8)
@@ -125,10 +130,25 @@ def inputs(ctx):
         n += 1
         ins.append({"id": "t%d" % n, "lines": roll_stream(rng, lens, 2, paint=True), "doubled": n % 2 == 0})
         n += 1
+    # rows that begin with blanks: the blanks count (first / middle / last row of a caption, rows that
+    # are captions of their own, all three modes)
+    for lead in (1, 4):
+        for total in (32, 33):
+            row = (total, lead)
+            for lens in ([row], [row, 10], [10, row], [10, row, 10], [row, row]):
+                for adjacent in (False, True):
+                    ins.append({"id": "l%d" % n, "lines": popon_stream(rng, [list(lens)], adjacent), "doubled": n % 2 == 0})
+                    n += 1
+                ins.append({"id": "l%d" % n, "lines": roll_stream(rng, lens, 2 + n % 3), "doubled": n % 2 == 0})
+                n += 1
+                ins.append({"id": "l%d" % n, "lines": roll_stream(rng, lens, 2, paint=True), "doubled": n % 2 == 0})
+                n += 1
     for k in range(300 if ctx.quick else 15000):
         mode = rng.choice(["pop", "pop", "roll", "paint"])
         lens = [rng.choice([rng.randrange(0, 41), 31, 32, 33]) for _ in range(rng.randrange(1, 5))]
         lens = [x for x in lens if x > 0] or [5]
+        if rng.random() < 0.3:
+            lens = [(x, rng.choice([0, 1, 2, 5])) if x > 1 else x for x in lens]
         if mode == "pop":
             bufs = [lens[:3]] + ([[rng.randrange(1, 41)]] if rng.random() < 0.4 else [])
             lines = popon_stream(rng, bufs, rng.random() < 0.5)
